@@ -179,10 +179,12 @@ def qft (phaseOf : QftPhases R) (aMask : Nat) : Option (MultiOp R) :=
       let hi ← h (vec.getD i 0)
       let rots ← (List.range (count - i - 1)).mapM (fun k =>
         let j := k + 1
-        match SingleOp.checked (Atom.rz (vec.getD (i + j) 0) (phaseOf j)) with
-        | none => none
-        | some g => g.c (vec.getD i 0))
-      pure (hi ++ rots)
+        -- controlled RZ(phase) on v_{i+j}, then RZ(phase / 2) on the control (D10 repair)
+        match SingleOp.checked (Atom.rz (vec.getD (i + j) 0) (phaseOf j)),
+              SingleOp.checked (Atom.rz (vec.getD i 0) (phaseOf (j + 1))) with
+        | some g, some g' => (g.c (vec.getD i 0)).map (fun cg => [cg, g'])
+        | _, _ => none)
+      pure (hi ++ rots.flatten)
     do
       let stages ← (List.range (count - 1)).mapM stage
       let last ← h (vec.getD (count - 1) 0)
@@ -204,7 +206,7 @@ def qftSwapped (phaseOf : QftPhases R) (aMask : Nat) : Option (MultiOp R) := do
     (SingleOp.checked (Atom.swap (vecMask.getD i 0 ||| vecMask.getD (len - i - 1) 0))).map
       MultiOp.ofSingle)
   let q ← qft phaseOf aMask
-  pure (q ++ swaps.flatten)
+  pure (swaps.flatten ++ q)
 
 end Op
 
